@@ -480,3 +480,61 @@ Proof.
   cbv zeta. split; [unfold wf; cbn; unfold W32, W64; lia|]. split; [reflexivity|].
   split; [apply exact_gapsb_ok; vm_compute; reflexivity|]. unfold sync. cbn. repeat split; reflexivity.
 Qed.
+
+(* ------------------------------------------------------------------ the monitor's clause 0 and the bucket *)
+(* The monitor's upper reference H and the bucket in lockstep: H + tokens never exceeds burst, so the
+   Model's own verdicts are never rejected for clause 0 — for every arrival sequence (no guard besides
+   the property's own quantifier: tokens <= burst, monotone clock below 2^64). *)
+Definition usync (t : tb) (c : contract) : Prop :=
+  c_rate c = rate t /\ c_burst c = burst t /\ c_tprev c = Some (last t) /\ c_H c + tokens t * S8 <= burst t * S8.
+
+Lemma judge_step_upper t c now len : wf t -> rate t <> 0 -> usync t c -> last t <= now -> now < W64 ->
+  let '(t1, ok) := tb_step t now len in
+  wf t1 /\ rate t1 = rate t /\ last t1 = now /\
+  match judge c len now (if ok then TC_ACT_OK else TC_ACT_SHOT) None with
+  | inr k => k <> 0
+  | inl c' => usync t1 c'
+  end.
+Proof.
+  intros Hwf Hr (Sr & Sb & St & SH) Hle Hlt.
+  pose proof (refill_bound t now Hwf Hle Hlt) as (Hb1 & Hb2).
+  pose proof Hwf as (Ht & Hb & Hl).
+  set (g := now - last t) in *.
+  assert (Hq : (g * rate8 t / G) * S8 <= rate t * g).
+  { pose proof (N.mul_div_le (g * rate8 t) G ltac:(discriminate)) as H1.
+    pose proof (N.mul_div_le (rate t) 8 ltac:(discriminate)) as H2. rewrite <- rate8_div in H2.
+    rewrite S8_G. set (q := g * rate8 t / G) in *. nia. }
+  set (q := g * rate8 t / G) in *.
+  unfold tb_step. destruct (rate t =? 0) eqn:Er; [lia|].
+  set (t2 := tb_refill t now) in *.
+  unfold judge. rewrite Sr, Er, St.
+  replace (last t <=? now) with true by (symmetry; apply N.leb_le; exact Hle). fold g.
+  rewrite Sb. set (cred := rate t * g) in *.
+  set (Hd := if cred <=? c_H c then c_H c - cred else 0).
+  assert (HHd : Hd + t2 * S8 <= burst t * S8).
+  { unfold Hd. destruct (cred <=? c_H c) eqn:Ec; unfold S8 in *; nia. }
+  destruct (len <=? t2) eqn:El.
+  - cbn [N.eqb TC_ACT_OK]. unfold wf; cbn [tokens last rate burst prio].
+    split; [lia|]. split; [reflexivity|]. split; [reflexivity|].
+    fold Hd. destruct (burst t * S8 <? Hd + len * S8) eqn:EH; [unfold S8 in *; nia|].
+    destruct (c_prio c); unfold usync; cbn [c_rate c_burst c_H c_tprev tokens last rate burst];
+      repeat split; try assumption; try reflexivity; unfold S8 in *; nia.
+  - change (TC_ACT_SHOT =? TC_ACT_OK) with false. change (TC_ACT_SHOT =? TC_ACT_SHOT) with true. cbv iota.
+    unfold wf; cbn [tokens last rate burst prio].
+    split; [lia|]. split; [reflexivity|]. split; [reflexivity|].
+    match goal with |- context [if ?x <? ?y then inr 1 else _] => destruct (x <? y) end; [discriminate|].
+    unfold usync; cbn [c_rate c_burst c_H c_tprev tokens last rate burst]. fold Hd.
+    repeat split; try assumption; reflexivity.
+Qed.
+
+Theorem upper_clause_never_rejects_model : forall pks t c,
+  wf t -> rate t <> 0 -> usync t c -> mono (last t) pks -> judge_run c t pks <> Some 0.
+Proof.
+  induction pks as [|[now len] r IH]; intros t c Hwf Hr Hs Hm; cbn [judge_run]; [discriminate|].
+  cbn [mono] in Hm. destruct Hm as (Hle & Hlt & Hrest).
+  pose proof (judge_step_upper t c now len Hwf Hr Hs Hle Hlt) as Hj.
+  destruct (tb_step t now len) as [t1 ok]. destruct Hj as (Hwf1 & Hr1 & Hl1 & Hj).
+  destruct (judge c len now (if ok then TC_ACT_OK else TC_ACT_SHOT) None) as [c'|k].
+  - apply IH; try assumption; try congruence.
+  - intros H. inversion H. subst. apply Hj. reflexivity.
+Qed.
